@@ -41,9 +41,13 @@ class Resident:
         self.extra = extra_sources or (lambda e: False)
         self.tainted: set[str] = set()
         self.table_aliases: set[str] = set()
-        for name, vals in self.assigns.items():
-            if vals and all(self._is_table_value(v) for v in vals):
-                self.table_aliases.add(name)
+        changed = True
+        while changed:
+            changed = False
+            for name, vals in self.assigns.items():
+                if name not in self.table_aliases and vals and all(self._is_table_value(v) for v in vals):
+                    self.table_aliases.add(name)
+                    changed = True
         changed = True
         while changed:
             changed = False
@@ -58,6 +62,8 @@ class Resident:
         _self_is_mdib[0] = self.self_is_mdib
         if isinstance(v, ast.IfExp):
             return self._is_table_value(v.body) and self._is_table_value(v.orelse)
+        if isinstance(v, ast.Name):
+            return v.id in self.table_aliases  # alias of an alias / closure variable of the enclosing function
         if isinstance(v, ast.Call) and isinstance(v.func, ast.Name):
             # a local helper function that returns one of the tables
             for d in ast.walk(self.fn):
